@@ -1,25 +1,15 @@
 #!/bin/bash
 # usage: tools/with_patch.sh <patch.diff> <command...>
-# Runs <command> with VERIF_OVERLAY pointing at a go-build overlay in which the files
-# touched by the patch (paths relative to /repo, -p1) are replaced by patched copies.
-# /repo itself is never modified.  Checks pass VERIF_OVERLAY to `go build -overlay`.
+# Runs <command> with VERIF_REPO pointing at a scratch copy of /repo with the patch applied
+# (git apply / patch -p1). /repo itself is never modified; the copy is removed afterwards.
+# Every check honours VERIF_REPO (see env.sh), so e.g.
+#   tools/with_patch.sh my.diff ./run.sh C08 quick
+# runs the C08 check against the patched tree.
 set -e
 patch=$(readlink -f "$1"); shift
-d=$(mktemp -d /var/tmp/verif-patch-XXXXXX)
+d=$(mktemp -d /var/tmp/verif-repo-XXXXXX)
 trap 'rm -rf "$d"' EXIT
-files=$(grep -E '^\+\+\+ ' "$patch" | sed -E 's#^\+\+\+ (b/)?##; s#\t.*##' | grep -v '^/dev/null$' | sort -u)
-echo '{"Replace":{' > $d/overlay.json
-first=1
-for f in $files; do
-  mkdir -p "$d/src/$(dirname $f)"
-  [ -f /repo/$f ] && cp /repo/$f "$d/src/$f"
-done
-(cd $d/src && patch -s -p1 < "$patch")
-for f in $files; do
-  [ $first = 1 ] || echo ',' >> $d/overlay.json
-  first=0
-  printf '"%s":"%s"' "/repo/$f" "$d/src/$f" >> $d/overlay.json
-done
-echo '}}' >> $d/overlay.json
-export VERIF_OVERLAY=$d/overlay.json
+rsync -a --exclude .git /repo/ $d/
+(cd $d && patch -s -p1 < "$patch")
+export VERIF_REPO=$d
 "$@"
